@@ -61,7 +61,7 @@ def splitoff_stream(ck, srcs, targets=("sql.sqlite", "sql.postgres")):
     srcs = list(dict.fromkeys(srcs))
     reqs = [{"src": s, "target": t, "want": [], "msg_prefix": "verif:split_off_back"} for s in srcs for t in targets]
     ans = harness("log", reqs)
-    exprs, meta = [], []
+    exprs, meta, index = [], [], {}
     seen_hook, ok_compiles = False, 0
     for rq, a in zip(reqs, ans):
         if "ok" in a:
@@ -77,16 +77,21 @@ def splitoff_stream(ck, srcs, targets=("sql.sqlite", "sql.postgres")):
             except ValueError as ex:
                 ck.stat("splitoff", "unmodelled:" + str(ex)[:40])
                 continue
-            exprs.append("(let r := split_off_back split_required records %s %s in "
-                         "(res_remaining_len r, res_missing r, (map kind_of (res_atomic r), res_select r), res_why r))" % (p, nl(d["in"]["output"])))
-            meta.append((rq, d))
+            ex = ("(let r := split_off_back split_required records %s %s in "
+                  "(res_remaining_len r, res_missing r, (map kind_of (res_atomic r), res_select r), res_why r))" % (p, nl(d["in"]["output"])))
+            if ex not in index:
+                index[ex] = len(exprs)
+                exprs.append(ex)
+            meta.append((rq, d, index[ex]))
     if ok_compiles and not seen_hook:
         ck.violation("no verif:split_off_back line in any of %d successful compiles: the hook of split_off_back is missing" % ok_compiles,
                      {"kind": "splitoff-hook-missing"}, no_input=True)
         return
     vals = coq_eval(HEADER, exprs) if exprs else []
     agree = 0
-    for (rq, d), v in zip(meta, vals):
+    ck.coverage["splitoff_distinct_inputs"] = len(exprs)
+    for rq, d, ix in meta:
+        v = vals[ix]
         rem, missing, (kinds, select), why = v
         key = json.dumps([d["in"]["pipeline"], d["in"]["output"]], sort_keys=True)
         ck.count("splitoff", key)
